@@ -76,8 +76,8 @@ def exercise(ctx):
             setattr(py, sfx(word), 7)
             if getattr(Inner.FromString(PyInner.serialize(py)), word) != 7:
                 V("wire-name", "nested field value does not arrive under the proto name")
-        if pos in ("flat-param", "flat-dotted-leaf", "flat-dotted-nonleaf"):
-            param = {"flat-param": sfx(word), "flat-dotted-leaf": sfx(word), "flat-dotted-nonleaf": "plain"}[pos]
+        if pos in ("flat-param", "flat-dotted-leaf", "flat-dotted-nonleaf", "dep-flat-dotted-nonleaf"):
+            param = {"flat-param": sfx(word), "flat-dotted-leaf": sfx(word), "flat-dotted-nonleaf": "plain", "dep-flat-dotted-nonleaf": "plain"}[pos]
             for kind in ("sync", "async"):
                 client = rig.client(f, svc, kind)
                 sig = inspect.signature(getattr(client, client_method_name(m["name"])))
@@ -89,12 +89,17 @@ def exercise(ctx):
                     continue
                 seen = Req.FromString(c["requests"][0])
                 got = {"flat-param": lambda: getattr(seen, word), "flat-dotted-leaf": lambda: getattr(seen.inner, word),
-                       "flat-dotted-nonleaf": lambda: getattr(seen, word).plain}[pos]()
+                       "flat-dotted-nonleaf": lambda: getattr(seen, word).plain,
+                       "dep-flat-dotted-nonleaf": lambda: getattr(seen.dep, word).plain}[pos]()
                 if got != "pv":
                     V("flat-wire", f"{kind}: keyword {param}='pv' arrived as {str(seen)!r}")
-        if pos in ("http-var", "http-var-dotted-leaf", "http-var-dotted-nonleaf", "http-body", "routing-implicit-dotted", "rpc-name", "rpc-name-transport"):
+        if pos in ("http-var", "http-var-dotted-leaf", "http-var-dotted-nonleaf", "http-body", "routing-implicit-dotted", "rpc-name", "rpc-name-transport",
+                   "dep-http-var"):
             r = Req()
-            if pos == "http-var":
+            if pos == "dep-http-var":
+                setattr(r.dep, word, "items/i1")
+                var = f"dep.{word}"
+            elif pos == "http-var":
                 setattr(r, word, "items/i1")
                 var = word
             elif pos == "http-var-dotted-leaf":
@@ -133,14 +138,14 @@ def exercise(ctx):
                         V("routing-key", f"{kind} routing header {hp[0] if hp else None!r}, expected {var}=items/i1")
                     if Req.FromString(c["requests"][0]) != r:
                         V("wire-request", f"{kind}: request changed on the wire")
-        if pos == "routing-explicit":
+        if pos in ("routing-explicit", "dep-routing-explicit"):
             r = Req()
-            setattr(r, word, "items/i9")
+            setattr(r.dep if pos == "dep-routing-explicit" else r, word, "items/i9")
             for kind in ("sync", "async"):
                 c = grpc_call(kind, request=to_python(ctx, P + "FrobRequest", r))
                 if c is not None:
                     hp = header_pairs(c["metadata"], kind)
-                    want = {"routing_id": "items/i9", word: "items/i9"}
+                    want = {"routing_id": "items/i9", (f"dep.{word}" if pos == "dep-routing-explicit" else word): "items/i9"}
                     if hp is None or dict(hp[1]) != want:
                         V("routing-key", f"{kind} routing header {hp[0] if hp else None!r}, expected {want}")
         if pos in ("rpc-name", "rpc-name-transport"):
